@@ -95,6 +95,13 @@ class Run:
     def has_violation(self) -> bool:
         return any(i.verdict == VIOLATION for i in self.instances)
 
+    def has_new_violation(self) -> bool:
+        known = self._known()
+        return any(i.verdict == VIOLATION and not any(self._matches(e, i) for e in known) for i in self.instances)
+
+    def has_error(self) -> bool:
+        return any(i.verdict == ERROR for i in self.instances)
+
     def floor(self, rule: str, minimum: int):
         """Instance floor: fewer recognised instances than confirmed by hand is an analysis error."""
         self.floors[rule] = minimum
@@ -129,9 +136,11 @@ class Run:
         counts: Dict[str, int] = {}
         for inst in self.instances:
             counts[inst.rule] = counts.get(inst.rule, 0) + 1
-        any_violation = any(i.verdict == VIOLATION for i in self.instances)
+        known0 = self._known()
+        any_violation = any(i.verdict == VIOLATION and not any(self._matches(e, i) for e in known0)
+                            for i in self.instances)
         for rule, minimum in self.floors.items():
-            # a floor guards against a vacuous pass; a run that already reports a violation does not pass
+            # a floor guards against a vacuous pass; a run that already reports a (new) violation does not pass
             if counts.get(rule, 0) < minimum and not any_violation:
                 self.error(rule, '-', '-', f'instance floor {minimum}',
                            f'only {counts.get(rule, 0)} instances recognised, '
@@ -176,9 +185,11 @@ class Run:
         print(f'[{self.prop}] tier={self.tier} instances={len(self.instances)} hold={n_hold} '
               f'violations={len(new)} known={len(listed)} analysis_errors={len(errors)} '
               f'wall={time.time() - self.t0:.2f}s')
-        if errors:
-            return 2
-        return 1 if new else 0
+        # a reported violation is definite (each is justified on its own); analysis errors only say that something
+        # else could not be decided
+        if new:
+            return 1
+        return 2 if errors else 0
 
     def _write_evidence(self, n_new: int, n_known: int, n_err: int):
         if os.environ.get('DZNVERIF_NO_EVIDENCE'):
